@@ -74,9 +74,13 @@ def _wait_scenario(obj, call, later_state, requested):
 def _wait_sweep(mk, call):
     """standard trajectories: every awaited-state shape against every end state"""
     n = 0
-    for state in (None, 'DONE', 'FAILED', ['DONE', 'FAILED'], 'CANCELED'):
+    mid = getattr(mk(), '_wait_mid', None)     # a non-final state the entity can reach and stay in
+    shapes = [None, 'DONE', 'FAILED', ['DONE', 'FAILED'], 'CANCELED']
+    if mid:
+        shapes += [mid, [mid], [mid, 'DONE']]
+    for state in shapes:
         requested = FINAL if not state else state if isinstance(state, list) else [state]
-        for later in ('DONE', 'FAILED', 'CANCELED'):
+        for later in ('DONE', 'FAILED', 'CANCELED') + ((mid,) if mid else ()):
             n += 1
             obj = mk()
             r = _wait_scenario(obj, lambda: call(obj, state), later, requested)
@@ -94,7 +98,8 @@ def task_wait(case, rp):
         def mk():
             t = object.__new__(Task); t._log = Stub()
             t._pm = t._tmgr = type('M', (), {})(); t._tmgr._terminate = _Event()
-            t._state = 'AGENT_EXECUTING'
+            t._state = 'AGENT_SCHEDULING'
+            t._wait_mid = 'AGENT_EXECUTING'
             return t
         return _wait_sweep(mk, lambda t, state: t.wait(state, None))
     return _task_wait_model(case, rp)
@@ -129,7 +134,8 @@ def pilot_wait(case, rp):
         def mk():
             p = object.__new__(Pilot); p._log = Stub()
             p._pm = p._pmgr = type('M', (), {})(); p._pmgr._terminate = _Event()
-            p._state = 'PMGR_ACTIVE'
+            p._state = 'PMGR_LAUNCHING'
+            p._wait_mid = 'PMGR_ACTIVE'
             return p
         return _wait_sweep(mk, lambda p, state: p.wait(state, None))
     return _pilot_wait_model(case, rp)
